@@ -37,7 +37,9 @@ LINE_BIG = [1000, 5000, 20000, 100000]
 FILL_SMALL = [0, 0, 0, 1, 2, 3, 4, 5, 6, 7, 8, 9, 12, 16, 20, 33]
 FILL_BIG = [300, 1000, 2500, 5000]
 
-PRELUDE = ["a = 7", "NN = None", "ZZ = 0", "LL = [1, 2]", "SS = \"s\"", "def g1(x):", "    return x"]
+PRELUDE = ["a = 7", "NN = None", "ZZ = 0", "LL = [1, 2]", "SS = \"s\"", "def g1(x):", "    return x",
+           "def g2(x):", "    y = x + 1", "    z = [y, y * 2]", "    return z[0]"]
+W0, W1 = "\x03", "\x04"      # around a callee name that the twin program blanks out (the call becomes a parenthesised operand)
 
 
 class Gen:
@@ -349,8 +351,12 @@ class Gen:
             m = self.frame(i, name, file)
             return op, "%s%s%s(%s%s%s)" % (self.operand([x]), self.sp(), m, self.gap(True), self.pick(["", "a", "a, a", "k=a"]), self.gap(True)), post
         if op == "arity":
-            callee, cname = self.pick([("g1", "g1"), ("g1", "g1"), ("(lambda x: x)", "lambda")])
+            callee, cname = self.pick([("g1", "g1"), ("g2", "g2"), ("g2", "g2"), ("(lambda x: x)", "lambda")])
             args = self.pick(["a, a", "", "a, zz=a", "zz=a", "a, x=a", "*[a, a]"])
+            if callee == "g2" and self.chance(0.7):
+                # an earlier, successful call of the same function at the same depth (its frame slot is reused by the failing call)
+                args = self.pick(["@(a), a", "@(a), zz=a", "a, x=@(a)", "@(@(a)), a"]).replace("@", W0 + "g2" + W1)
+                self.features.add("warm-callee")
             m = self.frame(i, name, file)
             self.exp.append({"name": cname, "file": file, "mark": 0, "cmp": "name"})
             return op, "%s%s%s(%s%s%s)" % (callee, self.sp(), m, self.gap(True), args, self.gap(True)), post
@@ -616,7 +622,11 @@ def make_case(rnd, cid):
     crlf = "plain" not in prof and rnd.random() < 0.06
     if crlf:
         g.features.add("crlf")
+    cold = {}
     for fn, text in files.items():
+        if W0 in text:
+            cold[fn] = resolve(re.sub(W0 + ".*?" + W1, lambda m: " " * (len(m.group(0)) - 2), text))[0]
+            text = text.replace(W0, "").replace(W1, "")
         c, pos = resolve(text)
         if crlf:
             c = c.replace("\n", "\r\n")       # a line terminator either way: lines and columns are unchanged
@@ -637,6 +647,9 @@ def make_case(rnd, cid):
             "depth": depth, "profile": sorted(prof), "features": sorted(g.features), "infrag": g.infrag, "weight": g.weight}
     if opts:
         case["opts"] = opts
+    if cold:
+        twin = {fn: (cold[fn].replace("\n", "\r\n") if crlf else cold[fn]) if fn in cold else clean[fn] for fn in clean}
+        case["twin"] = {"file": MAIN, "src": twin[MAIN], "mods": {k: v for k, v in twin.items() if k != MAIN}}
     return case
 
 
@@ -710,7 +723,7 @@ def record(case, res, ast):
     if c01.kind_of(res["err"]) != k:
         ast = None                 # not a kind RefSem knows: oracle (a) only
     bt = parse_bt(res.get("bt", ""))
-    rec = {"id": case["id"], "kind": k, "exp": case["exp"], "obs": res["stack"], "ser": res["ser"].get("stack") or [],
+    rec = {"id": case["id"], "kind": k, "exp": case["exp"], "obs": res["stack"], "twin": res.get("twin", res["stack"]), "ser": res["ser"].get("stack") or [],
            "serok": (not res["ser"]["ok"]) and not res["ser"].get("static") and res["ser"].get("err") == res["err"],
            "bt": bt if bt is not None else [], "btok": bt is not None, "hasast": ast is not None,
            "ast": ast if ast is not None else {"k": "none"},
@@ -720,9 +733,17 @@ def record(case, res, ast):
 
 def execute(ctx, cases, tag):
     fin, fout, fast = ctx.path(tag + ".in"), ctx.path(tag + ".out"), ctx.path(tag + ".ast")
-    vlib.write_ndjson(fin, [{k: c[k] for k in ("id", "file", "src", "mods", "opts") if k in c} for c in cases])
+    TW = 10 ** 7
+    twins = [dict(c["twin"], id=c["id"] + TW, **({"opts": c["opts"]} if "opts" in c else {})) for c in cases if "twin" in c]
+    vlib.write_ndjson(fin, [{k: c[k] for k in ("id", "file", "src", "mods", "opts") if k in c} for c in cases] + twins)
     ctx.vh(["c16-run", "-in", fin, "-out", fout])
     res = {r["id"]: r for r in vlib.read_ndjson(fout)}
+    for c in cases:
+        if "twin" in c:
+            t = res.pop(c["id"] + TW)
+            if t["ok"] or t.get("static") or t.get("err") != res[c["id"]].get("err"):
+                raise vlib.MachineryError("twin of case %d does not fail the same way: %s / %s" % (c["id"], t.get("err"), res[c["id"]].get("err")))
+            res[c["id"]]["twin"] = t["stack"]
     want = [c for c in cases if c.get("refsem")]
     asts = {}
     if want:
